@@ -127,7 +127,7 @@ inductive Variant | asIs | repaired
 deriving Repr, DecidableEq
 
 /-- the variant `/repo` implements (the harness checks this against the tree) -/
-def Variant.current : Variant := .asIs
+def Variant.current : Variant := .repaired
 
 /-- `available_types` of the repaired code: `t not in relevant_types and t != any and
     not (t.is_type_constructor() and t.is_subtype(etype))`, left to right -/
